@@ -11,9 +11,10 @@ CONSTANTS
   VALS = {"num", "fn"}
   NEST = FALSE
   PAIRS = FALSE
+  INTF = {}
   PATLEN = 0
   INLEN = 0
   ELEMKINDS = {}
   INKINDS = {}
-INVARIANTS InDomain SynErrSilent GlobalsSuffixed HEmit
+INVARIANTS InDomain SynErrSilent GlobalsSuffixed IntfConsistent HEmit
 CHECK_DEADLOCK FALSE
